@@ -297,6 +297,17 @@ theorem walk_encodePack (okRef : Bytes → Bool) (cf : Bool) (rs : List Rec) (F 
 theorem walk_nil (okRef : Bytes → Bool) (cf : Bool) (f pos : Nat) : walk okRef cf f pos [] = ([], none) := by
   cases f <;> simp [walk]
 
+theorem encodePack_append (a b : List Rec) : encodePack (a ++ b) = encodePack a ++ encodePack b := by
+  induction a with
+  | nil => rfl
+  | cons r rs ih => simp [encodePack, ih]
+
+theorem entriesOf_append (a b : List Rec) (pos : Nat) :
+    entriesOf (a ++ b) pos = entriesOf a pos ++ entriesOf b (pos + (encodePack a).length) := by
+  induction a generalizing pos with
+  | nil => simp [entriesOf, encodePack]
+  | cons r rs ih => simp [entriesOf, encodePack, ih, Nat.add_assoc]
+
 theorem encodePack_length_ge (rs : List Rec) : rs.length ≤ (encodePack rs).length := by
   induction rs with
   | nil => simp [encodePack]
@@ -306,9 +317,10 @@ theorem encodePack_length_ge (rs : List Rec) : rs.length ≤ (encodePack rs).len
 
 /-- a strict prefix of a record (torn header or torn body) at the end of the file is not reported
 (with the fit check: `cf = true`) -/
-theorem walk_torn (okRef : Bytes → Bool) (f pos : Nat) (r : Rec) (k : Nat)
-    (h : recOK okRef r = true) (hk : k < (encodeRecord r).length) :
-    walk okRef true f pos ((encodeRecord r).take k) = ([], none) := by
+theorem walk_torn (okRef : Bytes → Bool) (cf : Bool) (f pos : Nat) (r : Rec) (k : Nat)
+    (h : recOK okRef r = true) (hk : k < (encodeRecord r).length)
+    (hcf : cf = true ∨ k < (encodeHeader r.ref r.body.length).length) :
+    walk okRef cf f pos ((encodeRecord r).take k) = ([], none) := by
   cases f with
   | zero => rfl
   | succ f =>
@@ -335,6 +347,11 @@ theorem walk_torn (okRef : Bytes → Bool) (f pos : Nat) (r : Rec) (k : Nat)
         rw [readSlice_eof 512 93 _ hno hlen]
       simp only [walk, ne_eq, not_true_eq_false, if_false, hw]
     · -- torn body: the header is complete, the body is not
+      have hcf' : cf = true := by
+        rcases hcf with hcf | hcf
+        · exact hcf
+        · rw [encodeHeader_length] at hcf; omega
+      subst hcf'
       obtain ⟨j, hj⟩ : ∃ j, k = (hdrLine r.ref r.body.length).length + 1 + j :=
         ⟨k - ((hdrLine r.ref r.body.length).length + 1), by omega⟩
       have hjb : j < r.body.length := by
@@ -453,8 +470,8 @@ def InBounds (st : Store) : Prop :=
 /-- every pack file of `ps` is still there in `qs`, possibly with bytes added at its end -/
 def Grows (ps qs : List Bytes) : Prop := ∀ (i : Nat) (p : Bytes), ps[i]? = some p → ∃ x, qs[i]? = some (p ++ x)
 
-theorem fetch_of_grows (st st' : Store) (hidx : st'.index = st.index) (hg : Grows st.packs st'.packs)
-    (hb : InBounds st) (r : Bytes) : st'.fetch r = st.fetch r := by
+theorem fetch_of_grows (st st' : Store) (r : Bytes) (hidx : st'.index.get r = st.index.get r)
+    (hg : Grows st.packs st'.packs) (hb : InBounds st) : st'.fetch r = st.fetch r := by
   unfold Store.fetch
   rw [hidx]
   cases hm : st.index.get r with
@@ -531,5 +548,269 @@ theorem append_eq_crashAppend (st : Store) (ref body : Bytes) :
   by_cases h : (st.packs.getLast?.getD [] ++ (encodeHeader ref body.length ++ body)).length > st.maxSize
   · simp [h]
   · simp [h]
+
+/-! ## the rebuilt index -/
+
+theorem setEntries_get (idx : Index) (i : Nat) (es : List Entry) (ref : Bytes) (m : Meta)
+    (h : (setEntries idx i es).get ref = some m) :
+    (∃ e ∈ es, e.ref = some ref ∧ m = ⟨i, e.offset, e.size⟩) ∨ idx.get ref = some m := by
+  induction es generalizing idx with
+  | nil => exact Or.inr h
+  | cons e es ih =>
+    simp only [setEntries] at h
+    cases hr : e.ref with
+    | none =>
+      simp only [hr] at h
+      rcases ih idx h with ⟨e', he', h'⟩ | h'
+      · exact Or.inl ⟨e', by simp [he'], h'⟩
+      · exact Or.inr h'
+    | some r =>
+      simp only [hr] at h
+      rcases ih _ h with ⟨e', he', h'⟩ | h'
+      · exact Or.inl ⟨e', by simp [he'], h'⟩
+      · by_cases hrr : ref = r
+        · subst hrr
+          rw [Index.get_set_same] at h'
+          injection h' with h'
+          exact Or.inl ⟨e, by simp, hr, h'.symm⟩
+        · rw [Index.get_set_other _ _ _ _ hrr] at h'
+          exact Or.inr h'
+
+theorem setEntries_get_isSome_mono (idx : Index) (i : Nat) (es : List Entry) (ref : Bytes)
+    (h : (idx.get ref).isSome) : ((setEntries idx i es).get ref).isSome := by
+  induction es generalizing idx with
+  | nil => exact h
+  | cons e es ih =>
+    simp only [setEntries]
+    cases hr : e.ref with
+    | none => exact ih idx h
+    | some r =>
+      apply ih
+      by_cases hrr : ref = r
+      · subst hrr; rw [Index.get_set_same]; rfl
+      · rw [Index.get_set_other _ _ _ _ hrr]; exact h
+
+theorem setEntries_get_live (idx : Index) (i : Nat) (es : List Entry) (e : Entry) (ref : Bytes)
+    (he : e ∈ es) (hr : e.ref = some ref) : ((setEntries idx i es).get ref).isSome := by
+  induction es generalizing idx with
+  | nil => cases he
+  | cons e' es ih =>
+    simp only [setEntries]
+    rcases List.mem_cons.mp he with he | he
+    · subst he
+      simp only [hr]
+      apply setEntries_get_isSome_mono
+      rw [Index.get_set_same]; rfl
+    · cases hr' : e'.ref with
+      | none => exact ih idx he
+      | some r => exact ih _ he
+
+theorem mem_entriesOf (rs : List Rec) (pos : Nat) (e : Entry) (h : e ∈ entriesOf rs pos) :
+    ∃ pre x post, rs = pre ++ x :: post ∧ e = entryOf x (pos + (encodePack pre).length) := by
+  induction rs generalizing pos with
+  | nil => simp [entriesOf] at h
+  | cons r rs ih =>
+    simp only [entriesOf, List.mem_cons] at h
+    rcases h with h | h
+    · exact ⟨[], r, rs, rfl, by simp [h, encodePack]⟩
+    · obtain ⟨pre, x, post, e1, e2⟩ := ih _ h
+      exact ⟨r :: pre, x, post, by simp [e1], by simp [e2, encodePack, Nat.add_assoc]⟩
+
+theorem entryOf_mem_entriesOf (pre : List Rec) (x : Rec) (post : List Rec) (pos : Nat) :
+    entryOf x (pos + (encodePack pre).length) ∈ entriesOf (pre ++ x :: post) pos := by
+  rw [entriesOf_append]
+  simp [entriesOf]
+
+/-- the extent a walker entry points at holds the record's body -/
+theorem extent_entryOf (pre : List Rec) (x : Rec) (post : List Rec) (tail : Bytes) :
+    extent (encodePack (pre ++ x :: post) ++ tail)
+      (entryOf x (0 + (encodePack pre).length)).offset (entryOf x (0 + (encodePack pre).length)).size = x.body := by
+  have e : encodePack (pre ++ x :: post) ++ tail =
+      (encodePack pre ++ encodeHeader x.ref x.body.length) ++ x.body ++ (encodePack post ++ tail) := by
+    simp [encodePack_append, encodePack, encodeRecord]
+  rw [e]
+  have := extent_exact (encodePack pre ++ encodeHeader x.ref x.body.length) x.body (encodePack post ++ tail)
+  simpa [entryOf] using this
+
+/-! ## delete -/
+
+/-- the ref text `delete` leaves in a rewritten header: `x…x-0…0` of the same length -/
+def delRef (name dg : Bytes) : Bytes := List.replicate name.length 120 ++ 45 :: List.replicate dg.length 48
+
+theorem delRef_length (name dg : Bytes) : (delRef name dg).length = (name ++ 45 :: dg).length := by
+  simp [delRef]
+
+theorem deletedHeader_encodeHeader (name dg : Bytes) (size : Nat) (h1 : 45 ∉ name) (h2 : 32 ∉ dg) :
+    deletedHeader (encodeHeader (name ++ 45 :: dg) size) = some (encodeHeader (delRef name dg) size) := by
+  have e0 : encodeHeader (name ++ 45 :: dg) size = 91 :: (hdrLine (name ++ 45 :: dg) size ++ [93]) :=
+    encodeHeader_eq _ _
+  unfold deletedHeader
+  rw [e0]
+  have hlast : (91 :: (hdrLine (name ++ 45 :: dg) size ++ [93])).getLast? = some 93 := by
+    have : (91 :: (hdrLine (name ++ 45 :: dg) size ++ [93])) = (91 :: hdrLine (name ++ 45 :: dg) size) ++ [93] := rfl
+    rw [this, List.getLast?_append]; simp
+  have hinner : (List.drop 1 (91 :: (hdrLine (name ++ 45 :: dg) size ++ [93]))).dropLast =
+      name ++ 45 :: (dg ++ 32 :: decEnc size) := by
+    have : (hdrLine (name ++ 45 :: dg) size ++ [93]).dropLast = hdrLine (name ++ 45 :: dg) size := by simp
+    simp only [List.drop_succ_cons, List.drop_zero, this]
+    simp [hdrLine]
+  simp only [List.head?_cons, hlast, ne_eq, not_true_eq_false, or_self, if_false, hinner]
+  rw [indexOf_append_hit 45 name _ h1]
+  have hd : (name ++ 45 :: (dg ++ 32 :: decEnc size)).drop (name.length + 1) = dg ++ 32 :: decEnc size := by
+    rw [show name ++ 45 :: (dg ++ 32 :: decEnc size) = (name ++ [45]) ++ (dg ++ 32 :: decEnc size) by simp,
+      List.drop_left' (by simp)]
+  simp only [hd]
+  rw [indexOf_append_hit 32 dg _ h2]
+  have hd2 : (name ++ 45 :: (dg ++ 32 :: decEnc size)).drop (name.length + 1 + dg.length) = 32 :: decEnc size := by
+    rw [show name ++ 45 :: (dg ++ 32 :: decEnc size) = (name ++ 45 :: dg) ++ (32 :: decEnc size) by simp,
+      List.drop_left' (by simp; omega)]
+  simp only [hd2]
+  simp [encodeHeader, delRef]
+
+theorem replaceAt_mid (pre x y post : Bytes) (h : x.length = y.length) :
+    replaceAt (pre ++ x ++ post) pre.length y = pre ++ y ++ post := by
+  have e1 : (pre ++ x ++ post).take pre.length = pre := by
+    rw [List.append_assoc, List.take_left]
+  have e2 : (pre ++ x ++ post).drop (pre.length + y.length) = post := by
+    rw [show pre.length + y.length = (pre ++ x).length by simp [h], List.drop_left]
+  unfold replaceAt
+  rw [e1, e2]
+
+theorem deleteHeaderAt_record (pre post name dg body : Bytes) (f : Nat) (h1 : 45 ∉ name) (h2 : 32 ∉ dg) :
+    deleteHeaderAt (pre ++ encodeHeader (name ++ 45 :: dg) body.length ++ (body ++ post)) (name ++ 45 :: dg)
+        ⟨f, pre.length + (encodeHeader (name ++ 45 :: dg) body.length).length, body.length⟩ =
+      some (pre ++ encodeHeader (delRef name dg) body.length ++ (body ++ post)) := by
+  have hk : 1 + (name ++ 45 :: dg).length + 1 + (decEnc body.length).length + 1 =
+      (encodeHeader (name ++ 45 :: dg) body.length).length := by
+    simp [encodeHeader]; omega
+  unfold deleteHeaderAt
+  simp only [hk]
+  rw [if_neg (by omega)]
+  have hoff : pre.length + (encodeHeader (name ++ 45 :: dg) body.length).length -
+      (encodeHeader (name ++ 45 :: dg) body.length).length = pre.length := by omega
+  simp only [hoff]
+  have hb : ((pre ++ encodeHeader (name ++ 45 :: dg) body.length ++ (body ++ post)).drop pre.length).take
+      (encodeHeader (name ++ 45 :: dg) body.length).length = encodeHeader (name ++ 45 :: dg) body.length := by
+    rw [List.append_assoc, List.drop_left, List.take_left]
+  simp only [hb, Nat.lt_irrefl, if_false, deletedHeader_encodeHeader name dg body.length h1 h2]
+  rw [replaceAt_mid]
+  simp [encodeHeader, delRef]
+
+theorem zeroExtent_record (a body post : Bytes) :
+    zeroExtent (a ++ (body ++ post)) a.length body.length = a ++ (List.replicate body.length 0 ++ post) := by
+  unfold zeroExtent
+  have he : extent (a ++ (body ++ post)) a.length body.length = body := by
+    have := extent_exact a body post
+    rwa [List.append_assoc] at this
+  rw [he]
+  by_cases hn : body.length = 0
+  · have : body = [] := List.eq_nil_of_length_eq_zero hn
+    subst this; simp
+  · simp only [hn, if_false]
+    have := replaceAt_mid a body (List.replicate body.length 0) post (by simp)
+    rw [List.append_assoc, List.append_assoc] at this
+    exact this
+
+theorem getElem?_modifyNth (l : List Bytes) (i j : Nat) (g : Bytes → Bytes) :
+    (modifyNth l i g)[j]? = if j = i then l[j]?.map g else l[j]? := by
+  induction l generalizing i j with
+  | nil => simp [modifyNth]
+  | cons x xs ih =>
+    cases i with
+    | zero => cases j <;> simp [modifyNth]
+    | succ i =>
+      cases j with
+      | zero => simp [modifyNth]
+      | succ j => simp [modifyNth, ih]
+
+/-! ## the effect order of `append` -/
+
+/-- what the scan state `(p, d)` of `appSafe` knows about the durability bookkeeping -/
+def AppRel (hl bl p : Nat) (d : Bool) (s : AppSt) : Prop :=
+  p ≤ 3 ∧ (p = 0 → s.written = 0) ∧ (p = 1 → s.written = hl) ∧ (2 ≤ p → s.written = hl + bl) ∧
+  (p < 3 → s.row = false) ∧ (d = false → s.synced = s.written) ∧ (p = 3 → d = false)
+
+theorem appRel_row (hl bl p : Nat) (d : Bool) (s : AppSt) (hr : AppRel hl bl p d s) (hrow : s.row = true) :
+    s.synced = hl + bl ∧ s.written = hl + bl := by
+  obtain ⟨h1, _, _, h4, h5, h6, h7⟩ := hr
+  have hp : p = 3 := by
+    by_cases hp : p < 3
+    · rw [h5 hp] at hrow; cases hrow
+    · omega
+  have := h6 (h7 hp)
+  have := h4 (by omega)
+  omega
+
+theorem appSafe_step (hl bl : Nat) (e : Eff) (t : List Eff) (p : Nat) (d : Bool) (s : AppSt)
+    (h : appSafe p d (e :: t) = true) (hr : AppRel hl bl p d s) :
+    ∃ p' d', appSafe p' d' t = true ∧ AppRel hl bl p' d' (appStep hl bl s e) := by
+  obtain ⟨h1, h2, h3, h4, h5, h6, h7⟩ := hr
+  cases e
+  case writeHeader =>
+    simp only [appSafe, Bool.and_eq_true, beq_iff_eq] at h
+    refine ⟨1, true, h.2, ?_⟩
+    have := h2 h.1
+    simp [AppRel, appStep, this, h5 (by omega)]
+  case copy =>
+    simp only [appSafe, Bool.and_eq_true, beq_iff_eq] at h
+    refine ⟨2, true, h.2, ?_⟩
+    have := h3 h.1
+    simp [AppRel, appStep, this, h5 (by omega)]
+  case sync =>
+    simp only [appSafe] at h
+    refine ⟨p, false, h, ?_⟩
+    simp only [AppRel, appStep]
+    exact ⟨h1, h2, h3, h4, h5, fun _ => trivial, fun _ => trivial⟩
+  case indexSet =>
+    simp only [appSafe, Bool.and_eq_true, beq_iff_eq, Bool.not_eq_true'] at h
+    obtain ⟨⟨hp, hd⟩, ht⟩ := h
+    subst hd
+    refine ⟨3, false, ht, ?_⟩
+    simp only [AppRel, appStep]
+    exact ⟨by omega, by omega, by omega, fun _ => h4 (by omega), by omega, fun _ => h6 rfl, fun _ => trivial⟩
+  all_goals
+    simp only [appSafe] at h
+    exact ⟨p, d, h, by simp only [AppRel, appStep]; exact ⟨h1, h2, h3, h4, h5, h6, h7⟩⟩
+
+theorem appSafe_prefix (hl bl : Nat) (effs : List Eff) (p : Nat) (d : Bool) (s : AppSt)
+    (h : appSafe p d effs = true) (hr : AppRel hl bl p d s) (k : Nat) :
+    ((effs.take k).foldl (appStep hl bl) s).row = true →
+      ((effs.take k).foldl (appStep hl bl) s).synced = hl + bl ∧
+      ((effs.take k).foldl (appStep hl bl) s).written = hl + bl := by
+  induction effs generalizing p d s k with
+  | nil => simpa using appRel_row hl bl p d s hr
+  | cons e t ih =>
+    cases k with
+    | zero => simpa using appRel_row hl bl p d s hr
+    | succ k =>
+      obtain ⟨p', d', ht, hr'⟩ := appSafe_step hl bl e t p d s h hr
+      simpa using ih p' d' _ ht hr' k
+
+/-- bytes written never exceed header + body on a safe order -/
+theorem appSafe_written_le (hl bl : Nat) (effs : List Eff) (p : Nat) (d : Bool) (s : AppSt)
+    (h : appSafe p d effs = true) (hr : AppRel hl bl p d s) (k : Nat) :
+    ((effs.take k).foldl (appStep hl bl) s).written ≤ hl + bl := by
+  induction effs generalizing p d s k with
+  | nil =>
+    obtain ⟨h1, h2, h3, h4, _⟩ := hr
+    simp only [List.take_nil, List.foldl_nil]
+    rcases Nat.lt_or_ge p 2 with hp | hp
+    · rcases Nat.lt_or_ge p 1 with hp0 | hp1
+      · have := h2 (by omega); omega
+      · have := h3 (by omega); omega
+    · have := h4 hp; omega
+  | cons e t ih =>
+    cases k with
+    | zero =>
+      obtain ⟨h1, h2, h3, h4, _⟩ := hr
+      simp only [List.take_zero, List.foldl_nil]
+      rcases Nat.lt_or_ge p 2 with hp | hp
+      · rcases Nat.lt_or_ge p 1 with hp0 | hp1
+        · have := h2 (by omega); omega
+        · have := h3 (by omega); omega
+      · have := h4 hp; omega
+    | succ k =>
+      obtain ⟨p', d', ht, hr'⟩ := appSafe_step hl bl e t p d s h hr
+      simpa using ih p' d' _ ht hr' k
 
 end Pk.Pack
